@@ -31,9 +31,12 @@ class SyncExecutor(CanCustomizeBind, Executor):
             super(SyncExecutor, self).shutdown(wait, **_kwargs)
             metrics.EXEC_INPROGRESS.labels(type="sync", executor=self._name).dec()
 
-    def submit(self, fn, *args, **kwargs):  # pylint: disable=arguments-differ
+    def submit(self, *args, **kwargs):  # pylint: disable=arguments-differ
         """Immediately invokes `fn(*args, **kwargs)` and returns a future
         with the result (or exception)."""
+        # (fn is not a named parameter, so that the callable may take a keyword "fn")
+        fn = args[0]
+        args = args[1:]
         with self._shutdown.ensure_alive():
             future = Future()
             track_future(future, type="sync", executor=self._name)
